@@ -1,53 +1,27 @@
 (* C12 — property theorems only.  Each is closed by `exact` of a lemma of C12_Proofs.v.
    Spec vocabulary (C12_Spec): prefix, addr128/len128 (IPv4 as ::ffff:a.b.c.d, length +96), contains,
-   set_contains, prefix_bits, mac_set_contains, identical, first_hit.
+   set_contains, prefix_bits, mac_set_contains, identical, first_hit, response_first_hit.
    Model vocabulary (C12_Model): prefix2bin128, trie_match (trie as the set of its keys), cidr_to_lpm_key,
    kernel_match/kernel_lookup (LPM trie over the emitted keys), canonicalize, run (addIp/addSourceIp/addSourceMac
-   with an arbitrary hash function), match_rules / match_rules_kernel. *)
+   with an arbitrary hash function), match_rules / match_rules_kernel, response_match.
+   All statements are at full strength.  (On the tree before commit 1e92e18 the faithful model refuted the
+   userspace statements at IPv6 /0: Prefix2bin128 emitted 128 bits; see before_fix_len0 in C12_Proofs.) *)
 From Coq Require Import List NArith Bool.
 From Dae Require Import C12_Spec C12_Model C12_Proofs.
 Import ListNotations.
 Open Scope N_scope.
 
-(* ---- Prefix2bin128 yields the leading len bits of the mapped address, for every length 0..32 / 0..128.
-   FALSE of the code as it stands: at IPv6 length 0 the loop emits all 128 bits. *)
-Definition C12_prefix2bin_full : Prop :=
+(* ---- Prefix2bin128 yields the leading len bits of the mapped address, for every length 0..32 / 0..128 *)
+Theorem C12_prefix2bin :
   forall p, wf_prefix p = true -> prefix2bin128 p = prefix_bits p.
+Proof. intros p _. exact (prefix2bin128_spec p). Qed.
+Print Assumptions C12_prefix2bin.
 
-Theorem C12_prefix2bin_refuted :
-  exists p, wf_prefix p = true /\ prefix2bin128 p <> prefix_bits p.
-Proof. exact prefix2bin_refuted_proof. Qed.
-Print Assumptions C12_prefix2bin_refuted.
-
-(* every length except IPv6 /0 is right; at IPv6 /0 the result is the whole address *)
-Theorem C12_prefix2bin_partial :
-  forall p, wf_prefix p = true ->
-    (len128 p <> 0 -> prefix2bin128 p = prefix_bits p)
-    /\ (len128 p = 0 -> prefix2bin128 p = bits128 (addr128 p)).
-Proof. exact prefix2bin_partial_proof. Qed.
-Print Assumptions C12_prefix2bin_partial.
-
-(* ---- the userspace trie matches exactly when some member contains the address.  FALSE as it stands. *)
-Definition C12_trie_contains_full : Prop :=
+(* ---- the userspace trie matches exactly when some member contains the address *)
+Theorem C12_trie_contains :
   forall ps a, forallb wf_prefix ps = true -> wf_addr a = true -> trie_match ps a = set_contains ps a.
-
-Theorem C12_trie_contains_refuted :
-  exists ps a, forallb wf_prefix ps = true /\ wf_addr a = true /\ trie_match ps a <> set_contains ps a.
-Proof. exact trie_contains_refuted_proof. Qed.
-Print Assumptions C12_trie_contains_refuted.
-
-Theorem C12_trie_contains_partial :
-  forall ps a, forallb wf_prefix ps = true -> wf_addr a = true -> no_v6_len0 ps = true ->
-    trie_match ps a = set_contains ps a.
-Proof. exact trie_contains_partial_proof. Qed.
-Print Assumptions C12_trie_contains_partial.
-
-(* exactly what the trie does for every set: an IPv6 /0 member acts as the host route of its address *)
-Theorem C12_trie_exact :
-  forall ps a, forallb wf_prefix ps = true -> wf_addr a = true ->
-    trie_match ps a = set_contains (map effective ps) a.
-Proof. exact trie_match_exact. Qed.
-Print Assumptions C12_trie_exact.
+Proof. exact trie_contains_proof. Qed.
+Print Assumptions C12_trie_contains.
 
 (* ---- a kernel-style longest-prefix lookup over the keys cidrToBpfLpmKey emits succeeds exactly when some
    member contains the address (either byte order), and reports the longest such member *)
@@ -64,20 +38,11 @@ Theorem C12_lpm_longest :
 Proof. exact kernel_lookup_longest_proof. Qed.
 Print Assumptions C12_lpm_longest.
 
-(* ---- userspace trie and kernel keys describe the same set.  FALSE as it stands (IPv6 /0). *)
-Definition C12_userspace_kernel_same_set_full : Prop :=
+(* ---- userspace trie and kernel keys describe the same set *)
+Theorem C12_userspace_kernel_same_set :
   forall big ps a, forallb wf_prefix ps = true -> wf_addr a = true -> trie_match ps a = kernel_match big ps a.
-
-Theorem C12_userspace_kernel_same_set_refuted :
-  exists ps a, forallb wf_prefix ps = true /\ wf_addr a = true /\ trie_match ps a <> kernel_match false ps a.
-Proof. exact same_set_refuted_proof. Qed.
-Print Assumptions C12_userspace_kernel_same_set_refuted.
-
-Theorem C12_userspace_kernel_same_set_partial :
-  forall big ps a, forallb wf_prefix ps = true -> wf_addr a = true -> no_v6_len0 ps = true ->
-    trie_match ps a = kernel_match big ps a.
-Proof. exact same_set_partial_proof. Qed.
-Print Assumptions C12_userspace_kernel_same_set_partial.
+Proof. exact same_set_proof. Qed.
+Print Assumptions C12_userspace_kernel_same_set.
 
 (* ---- sharing: whatever the hash function, two rules receive the same LPM index only if their sets are
    identical; canonicalisation keeps the denoted set; the stored set a rule points to denotes its own set *)
@@ -109,8 +74,8 @@ Theorem C12_mac_as_prefix :
 Proof. exact mac_as_prefix_proof. Qed.
 Print Assumptions C12_mac_as_prefix.
 
-(* ---- rules over the stored (possibly shared) sets decide as the rules the user wrote: kernel side in full,
-   userspace side FALSE as it stands (IPv6 /0), true without such members *)
+(* ---- rules over the stored (possibly shared) sets decide as the rules the user wrote, in the kernel form
+   and in userspace (dip / sip / mac rules, any hash function, any history of additions) *)
 Theorem C12_rules_kernel :
   forall (hash : list prefix -> N) big ops k,
     forallb wf_op ops = true -> wf_packet k = true ->
@@ -119,47 +84,24 @@ Theorem C12_rules_kernel :
 Proof. exact rules_kernel_proof. Qed.
 Print Assumptions C12_rules_kernel.
 
-Definition C12_rules_userspace_full : Prop :=
+Theorem C12_rules_userspace :
   forall (hash : list prefix -> N) ops k,
     forallb wf_op ops = true -> wf_packet k = true ->
     let b := run hash ops in
     match_rules (b_tries b) (b_rules b) k = Some (first_hit (map spec_rule_of (b_rules b)) k 0).
+Proof. exact rules_userspace_proof. Qed.
+Print Assumptions C12_rules_userspace.
 
-Theorem C12_rules_userspace_refuted :
-  exists ops k, forallb wf_op ops = true /\ wf_packet k = true /\
-    let b := run hash_lpm_set ops in
-    match_rules (b_tries b) (b_rules b) k <> Some (first_hit (map spec_rule_of (b_rules b)) k 0).
-Proof. exact rules_userspace_refuted_proof. Qed.
-Print Assumptions C12_rules_userspace_refuted.
-
-Theorem C12_rules_userspace_partial :
-  forall (hash : list prefix -> N) ops k,
-    forallb wf_op ops = true -> forallb op_no_v6_len0 ops = true -> wf_packet k = true ->
-    let b := run hash ops in
-    match_rules (b_tries b) (b_rules b) k = Some (first_hit (map spec_rule_of (b_rules b)) k 0).
-Proof. exact rules_userspace_partial_proof. Qed.
-Print Assumptions C12_rules_userspace_partial.
-
-(* ---- DNS response routing (ip(...) rules over the answer's addresses): FALSE as it stands (IPv6 /0),
-   true without such members *)
-Definition C12_response_full : Prop :=
+(* ---- DNS response routing: ip(...) rules over the answer's addresses *)
+Theorem C12_response :
   forall rs ips, forallb wf_resp_rule rs = true -> forallb wf_addr ips = true ->
     response_match rs ips = response_first_hit (resp_spec_rules rs) ips 0.
-
-Theorem C12_response_refuted :
-  exists rs ips, forallb wf_resp_rule rs = true /\ forallb wf_addr ips = true /\
-    response_match rs ips <> response_first_hit (resp_spec_rules rs) ips 0.
-Proof. exact response_refuted_proof. Qed.
-Print Assumptions C12_response_refuted.
-
-Theorem C12_response_partial :
-  forall rs ips, forallb wf_resp_rule rs = true -> forallb resp_no_v6_len0 rs = true -> forallb wf_addr ips = true ->
-    response_match rs ips = response_first_hit (resp_spec_rules rs) ips 0.
-Proof. exact response_partial_proof. Qed.
-Print Assumptions C12_response_partial.
+Proof. exact response_proof. Qed.
+Print Assumptions C12_response.
 
 (* ---- non-vacuity: a mixed set (unmasked, nested, mapped literal, IPv4 /0, IPv6) satisfies the hypotheses
-   and matches / rejects boundary probes; a history where two rules share and one does not *)
+   and matches / rejects boundary probes, ::/0 matches everything with kernel prefix length 0; a history
+   where two rules share (under the real hash and under a constant one) and two do not *)
 Example C12_nonvacuous :
   let ps := [ {| p_is4 := true; p_addr := 0x0a010203; p_bits := 8 |};
               {| p_is4 := true; p_addr := 0x0a800000; p_bits := 9 |};
@@ -169,12 +111,14 @@ Example C12_nonvacuous :
   let probes := [ v4_mapped 0x0a000000; v4_mapped 0x0affffff; v4_mapped 0x09ffffff; v4_mapped 0x0b000000;
                   0xfffeffffffff; 0x1000000000000; 0x20010db8ffffffffffffffffffffffff;
                   0x20010db9000000000000000000000000; 0 ] in
-  forallb wf_prefix ps = true /\ no_v6_len0 ps = true /\ forallb wf_addr probes = true
+  forallb wf_prefix ps = true /\ forallb wf_addr probes = true
   /\ map (set_contains (firstn 3 ps)) probes = [true; true; false; false; false; false; false; false; false]
   /\ map (set_contains ps) probes = [true; true; true; true; false; false; true; false; false]
   /\ map (trie_match ps) probes = map (set_contains ps) probes
   /\ map (kernel_lookup false ps) probes
-     = [Some 104; Some 105; Some 96; Some 96; None; None; Some 32; None; None].
+     = [Some 104; Some 105; Some 96; Some 96; None; None; Some 32; None; None]
+  /\ (let any6 := [ {| p_is4 := false; p_addr := 0; p_bits := 0 |} ] in
+      forallb (trie_match any6) probes = true /\ map (kernel_lookup true any6) probes = map (fun _ => Some 0) probes).
 Proof. exact nonvacuous_proof. Qed.
 
 Example C12_share_nonvacuous :
@@ -185,5 +129,5 @@ Example C12_share_nonvacuous :
   map r_index (b_rules (run hash_lpm_set ops)) = [0; 0; 1; 2]
   /\ map r_index (b_rules (run (fun _ => 7) ops)) = [0; 0; 1; 2]
   /\ length (b_tries (run (fun _ => 7) ops)) = 3%nat
-  /\ forallb wf_op ops = true /\ forallb op_no_v6_len0 ops = true.
+  /\ forallb wf_op ops = true.
 Proof. exact share_nonvacuous_proof. Qed.
